@@ -180,6 +180,26 @@ def model_check(cls, group, tier, mo, want=None):
             raise InfraError('model checking %s/%s/%s did not complete:\n%s' % (cls, group, tag, r['out'][-2000:]))
         json.dump(res, open(cp, 'w'))
         out.append(res)
+    if cls == 'pess' and group == 'safety' and (want is None or want & {'Compat', 'WordOK'}):
+        # unbounded executions: IndInv (TypeOK, WordOK, PcOK, Compat) is inductive - every state satisfying it is an initial
+        # state of PessInd!IndSpec, one step of Next must preserve it (Init => IndInv: it is an invariant of the runs above)
+        key = 'mcind|%s|%s|%s' % (os.path.basename(bdir), json.dumps(mo, sort_keys=True), _spec_hash())
+        cp = _cache_path('mcind', key)
+        if os.path.exists(cp):
+            out.append(json.load(open(cp)))
+        else:
+            t0 = time.time()
+            consts = {'MO': '<- MOlearnt', 'Threads': {1, 2, 3}, 'MaxOps': 1000, 'WithHB': False}
+            r = vlib.model_check('PessInd', 'pess_inductive', consts, [vlib.mo_def(mo)], invariants=['IndInv'], spec='IndSpec',
+                                 constraint='OneStepOnly', workers=8, heap='6g', timeout=1500,
+                                 workdir=os.path.join(OUT, 'work', 'mc.%d' % os.getpid()))
+            if not r['ok'] and not r['violated']:
+                raise InfraError('inductive check of PessImpl did not complete:\n%s' % r['out'][-2000:])
+            res = {'cls': cls, 'group': group, 'tag': 'inductive-t3 (executions of any length)', 'ok': r['ok'], 'violated': r['violated'],
+                   'states': r['distinct'], 'transitions': r['states'], 'wall': round(time.time() - t0, 1), 'invariants': ['IndInv'],
+                   'properties': [], 'consts': {'Threads': [1, 2, 3], 'MaxOps': 'unbounded'}, 'cex': None}
+            json.dump(res, open(cp, 'w'))
+            out.append(res)
     return out
 
 
